@@ -8,6 +8,8 @@ Static clauses (necessary conditions; value equality itself is not decided):
          builds wrap
   CLAMP  no saturating_*/wrapping_*/clamp call on the quantity path (tabled: the float ranking of the vector selector)
   DROP   the `None` of a checked operation (SafeAdd::try_add) must not flow into a removal: overflow turned into a silent drop
+  OPTIONAL the filter on the outputs drops only optional outputs that carry nothing (truth table of the predicate, E17): every
+         dropping row has the flag set, every tested quantity zero, every tested container empty, and looked at all value atoms
   SUBID  `a - b` never returns its subtrahend unchanged (Arithmetic::sub for Expression: no identity flow from `other`)
 """
 import re
